@@ -104,13 +104,17 @@ def parse_outcome(text, budget=2.0):
             if hole:
                 return ("bad", "program-with-a-hole", hole)
             try:
-                # the parse() built-in hands this text to programs
-                text_ = repr(node)
+                # the parse() built-in hands this text to programs; a tree
+                # that shares sub-nodes (a[i] += v holds a[i] twice) can
+                # take very long to render: inconclusive, not a finding
+                try:
+                    with time_limit(budget):
+                        text_ = repr(node)
+                except CaseTimeout:
+                    return ("program",)
                 if not isinstance(text_, str):
                     return ("bad", "program-renders-as-non-string",
                             type(text_).__name__)
-            except CaseTimeout:
-                raise
             except RecursionError:
                 pass          # depth is out of scope (see the statement)
             except BaseException as e:
@@ -331,6 +335,17 @@ def special_texts(ch=None):
              "s('{return;}')", "break;", "1; break;", "fn() break;",
              "continue;", "fn() do continue; end"]
     out += tails
+    # items of a destructuring target that are expensive to render
+    for n in (5, 12, 18, 25, 39):
+        out += ["[" + "a[" * n + "0" + "] += 1" * n + "] = 1",
+                "[" + "(" * n + "a" + "->b += 1)" * n + "] = 1",
+                "[1 < " + "(1 < " * n + "1" + " < 1)" * n + " < 1] = 1",
+                "a[" * n + "0" + "] += 1" * n]
+    for n in (50, 300, 400, 2000):
+        out += ["[1" + " + 1" * n + "] = 1", "[a" + "->b" * n + "] = 1",
+                "[a" + "()" * n + "] = 1", "[a" + "[0]" * n + "] = 1",
+                "[a" + " !> f()" * n + "] = 1", "[x, 1" + " * 2" * n + "] = y",
+                "def [1" + " + 1" * n + "] = 1"]
     exprs = ["(for a in b c)", "fn() (for a in b c)", "do for a in b do end end",
              "if a then (for a in b c)", "(while a do b end)", "x[1]", "x->y",
              "x(1)", "1", "'s'", "//p//", "[a]", "<<a>>", "<<<a => 1>>>",
